@@ -14,6 +14,8 @@ var c05BigSizes = []int{65537, 131072, 1 << 20}
 // C05 generates store-then-reuse histories with every framing, body class, size and header shape.
 func C05(t *rapid.T, big bool) *world.Scenario {
 	sc := &world.Scenario{Prop: "C05", Backend: Backend(t, "backend")}
+	// a quarter of the cases deliver the origin's replies as raw bytes through a real http.Transport
+	sc.Wire = Pct(t, "wire", 25)
 	u := "http://a.test/c05"
 	rp := world.Reply{Kind: "resp", Status: Pick(t, "status", 200, 200, 200, 203, 404, 410, 301, 501)}
 	rp.Reason = Pick(t, "reason", "", "", "OK", "Weird  Reason", "")
